@@ -35,6 +35,7 @@ pub fn lin_event(id: &str, model: Model) -> Value {
     let mut ev = src;
     ev["id"] = json!(id);
     ev["srctext"] = json!(model.to_string());
+    ev["srcfinite"] = json!(src_exact);
     let res = catch_unwind(AssertUnwindSafe(|| Linearizer::linearize(model)));
     match res {
         Err(p) => {
